@@ -141,7 +141,12 @@ class PredLoop(LoopContract):
 
     def iterate(self, ctx, it):
         if ctx.choose(2, "pred-loop") == 0:
-            p = self.u["objs"].new_node("Call", "pred")
+            # a predecessor is any node: a call, or a literal (a plain literal, or the Barrier / read literal that an earlier rewrite put in front of
+            # this source) - the code may well look at its type, so the element is split eagerly into real instances of both classes
+            if ctx.choose(2, "predecessor-kind") == 0:
+                p = self.u["objs"].new_node("Call", "pred")
+            else:
+                p = self.u["objs"].new_node("Literal", "pred", value=self.u["Barrier"] if ctx.choose(2, "predecessor-literal-is-a-Barrier") == 0 else object(), scope=())
             pt = self.u["objs"].nt(p)
             k = ctx.fresh(Key, "k.pred")
             ctx.assume(esel(self.E_s, pt, self.u["n"], k))
